@@ -240,7 +240,28 @@ func headerSchemaOutcome(text []byte) sx {
 	if err != nil {
 		return T("err")
 	}
-	return T("ok", dumpSchema(s))
+	first := T("ok", dumpSchema(s))
+	// the caller owns the schema it was given: editing it must not change what the next call returns
+	if s.Object != nil {
+		s.Object.Name += "_edited_by_caller"
+		for i := range s.Object.Fields {
+			s.Object.Fields[i].Name += "_edited"
+		}
+		for i := range s.Object.Symbols {
+			s.Object.Symbols[i] += "_edited"
+		}
+	}
+	for i := range s.Union {
+		s.Union[i].Type = "edited"
+	}
+	s2, err := avro.FileSchema(f.Name())
+	if err != nil {
+		return T("second-call-err")
+	}
+	if second := T("ok", dumpSchema(s2)); second.String() != first.String() {
+		return T("second-call-differs", second)
+	}
+	return first
 }
 
 func marshalOutcome(s avro.Schema) sx {
